@@ -235,7 +235,14 @@ def install():
     m.mp = types.SimpleNamespace(Event=Event, Queue=Queue, get_context=lambda *_: _Ctx, Process=None)
 
 
-def run_controlled(script, chooser, max_steps=20000):
+def uninstall():
+    """Put the real threading / queue / time / mp back into the nodes modules."""
+    for (mod, n), v in _saved.items():
+        if v is not None:
+            setattr(mod, n, v)
+
+
+def run_controlled(script, chooser, max_steps=20000, drain=False):
     """Runs script() in a controlled 'consumer' thread under the scheduler. Returns (status, scheduler, result-or-exception)."""
     global S
     S = Sched(chooser, max_steps)
@@ -251,6 +258,11 @@ def run_controlled(script, chooser, max_steps=20000):
     t = Thread(target=body, name="consumer")
     t.start()
     status = S.run_until(lambda: t._done)
+    S.consumer_steps = S.n
+    S.drained = None
+    if status == "done" and drain:
+        # the consumer's script is over: every background thread must now run to completion on its own
+        S.drained = S.run_until(lambda: not S.live())
     if status != "done":
         S.abort()
     return status, S, box
